@@ -16,6 +16,9 @@ namespace al {
 // Heap memory has no defined content: in the fault-injectable build every block the library mallocs is pre-filled with a
 // byte chosen here (0x00, 0xff, 0x55, 0xaa, ... by selector), so that a field the library forgets to initialise takes
 // different values from case to case (and between the two instances a differential check compares).
+// the library-managed buffer ends directly in front of an inaccessible page (fault-injectable build only)
+static inline void tight_code(bool on) { if (&alw != nullptr) alw.tight_code = on ? 1 : 0; }
+static inline void short_reads(int n) { if (&alw != nullptr) alw.short_read = n; }
 static inline void heap_fill(unsigned sel) { if (&alw == nullptr) return; static const unsigned char F[] = {0x00, 0xff, 0x55, 0xaa, 0x01, 0xfe, 0x80, 0x7f}; alw.fill_on = 1; alw.fill = F[sel % 8]; }
 
 // 0 STRICT, 1 NASM, 2 SMART coincide with enum asm_opt.  `path` selects one of several documented, equivalent ways of
